@@ -286,6 +286,44 @@ def client_status_line(u: U):
                      "should_close": sc})
 
 
+@unit("C02", "server.start_compression", functions=[f"{WRSP}:StreamResponse._do_start_compression"])
+def server_start_compression(u: U):
+    """StreamResponse._do_start_compression for every coding x bodiless-or-not: the stream writer gets a compressor
+    exactly when a body will follow.  (A compressor writes its end-of-stream bytes at write_eof even when nothing was
+    written - contracts/c04.py - so on a HEAD / 204 / 304 response those bytes would follow the header block.)"""
+    from multidict import CIMultiDict
+
+    from aiohttp.web_response import ContentCoding
+
+    coding = (ContentCoding.identity, ContentCoding.gzip, ContentCoding.deflate)[u.choose(3, "coding")]
+    empty = u.choose(2, "must_be_empty_body") == 1
+    had_cl = u.choose(2, "had_content_length") == 1
+    calls = []
+
+    class _Writer:
+        def enable_compression(self, encoding="deflate", strategy=None):
+            calls.append((encoding, strategy))
+
+    headers = CIMultiDict()
+    if had_cl:
+        headers["Content-Length"] = "5"
+    r = u.obj("StreamResponse", {"_payload_writer": _Writer(), "_headers": headers, "_compression_strategy": "STRATEGY",
+                                 "_must_be_empty_body": empty}, {}, shared=False)
+    f = u.load(WRSP, "StreamResponse._do_start_compression")
+    out = u.call(f, r, coding)
+    u.check("C02.compress.total", out.ok, f"{out!r}")
+    if empty or coding is ContentCoding.identity:
+        u.check("C02.compress.bodiless_gets_no_compressor", not calls,
+                "a response that must not have a body (HEAD, 1xx, 204, 304) never gets a compressing writer: its "
+                "end-of-stream bytes would be put on the wire after the header block and read as the next response",
+                known=[("F2b", bool(empty and calls))], witness={"coding": coding.value, "empty": empty})
+    else:
+        u.check("C02.compress.body_compressed_as_announced",
+                calls == [(coding.value, "STRATEGY")] and headers.get("Content-Encoding") == coding.value
+                and "Content-Length" not in headers,
+                "a body announced as Content-Encoding: X is compressed with X, and the stale Content-Length is dropped")
+
+
 @unit("C02", "server.write_eof", functions=[f"{WRSP}:Response.write_eof"])
 def server_write_eof(u: U):
     """Response.write_eof for every body kind (none, bytes, pre-compressed bytes, Payload) x bodiless-or-not: the bytes
